@@ -32,6 +32,7 @@ type Program struct {
 	Lock      map[*ssa.Function]*lockInfo
 	FrozenKeys map[string][]string
 	FrozenErrors []string
+	NonNilGlobals map[*ssa.Global]bool
 	ContractSource string // "repo" or "mirror"
 }
 
